@@ -307,7 +307,7 @@ def dec_reg(k, e):
 @G._memo
 def reg_strategy():
     T = reg_table()
-    reg = st.sampled_from(sorted(T)).flatmap(lambda k: st.tuples(T[k][1], st.sampled_from(["plain", "plain", "opt", "list", "dict", "any", "listfile"])).map(
+    reg = st.sampled_from(sorted(T)).flatmap(lambda k: st.tuples(T[k][1], st.sampled_from(["plain", "plain", "opt", "list", "dict", "any", "listfile", "posq"])).map(
         lambda t: {"kind": "registered", "type": k, "wrap": t[1], "value": enc_reg(k, t[0])}))
     secret = st.tuples(st.text(alphabet="abcdefghijklmnopqrstuvwxyzABCXYZ0123456789", min_size=6, max_size=12), st.sampled_from(["plain", "opt", "list", "dc", "any"])).map(
         lambda t: {"kind": "secret", "wrap": t[1], "value": "S3c" + t[0]})
@@ -348,7 +348,7 @@ def run_registered(ctx, case):
     k, wrap = case["type"], case["wrap"]
     T = reg_table()[k][0]
     v = dec_reg(k, case["value"])
-    if wrap in ("any", "listfile"):
+    if wrap in ("any", "listfile", "posq"):
         return run_registered_elsewhere(ctx, case, k, wrap, T, v)
     TT = {"plain": T, "opt": Optional[T], "list": List[T], "dict": Dict[str, T]}[wrap]
     vv = {"plain": v, "opt": v, "list": [v], "dict": {"k": v}}[wrap]
@@ -447,6 +447,26 @@ def run_registered_elsewhere(ctx, case, k, wrap, T, v):
                 continue
             if not eq_typed(back, v):
                 ctx.finding(f19(f"under-Any/roundtrip-differs/{fmt}"), {"value": repr(v), "dump": short(d, 200), "got": repr(back)})
+        return
+    if wrap == "posq":
+        # an optional positional of the type, left off the command line and given in a config file / config string instead
+        p = ArgumentParser(exit_on_error=False)
+        p.add_argument("--cfg", action="config")
+        p.add_argument("x", type=T, nargs="?")
+        cfg1 = typed.parse_object({"x": copy.deepcopy(v)})
+        doc = json.dumps({"x": json.loads(typed.dump(cfg1, format="json"))["x"]})
+        with _rt.scratch_dir() as d:
+            f = os.path.join(d, "c.json")
+            with open(f, "w", encoding="utf-8") as fh:
+                fh.write(doc)
+            for chan, argv in (("--cfg string", ["--cfg", doc]), ("--cfg file", ["--cfg", f])):
+                try:
+                    got = p.parse_args(list(argv)).x
+                except Exception as ex:  # noqa
+                    ctx.finding(f19(f"optional-positional/{chan}/rejected"), {"value": repr(v), "doc": doc, "error": fmt_exc(ex)})
+                    continue
+                if not eq_typed(got, v):
+                    ctx.finding(f19(f"optional-positional/{chan}/value-differs"), {"value": repr(v), "doc": doc, "got": repr(got)})
         return
     # listfile: the serialised texts of [v, v] one per line
     cfg1 = typed.parse_object({"x": copy.deepcopy(v)})
